@@ -159,7 +159,9 @@ Definition observe_world (w : world) : sx :=
       L (map (fun k => Svals (obs_result w k)) (seq 0 (length (results w))));
       L (map (fun f => L (map Snat (obs_file w f))) (seq 0 (length (files w))));
       (* identity structure: which register / result / file owns which list / container *)
-      L (map (fun p => Snat (snd p)) (regs w)); L (map Snat (results w)); L (map Snat (files w)) ].
+      L (map (fun p => Snat (snd p)) (regs w)); L (map Snat (results w)); L (map Snat (files w));
+      (* what each Line object's Field objects hold (field.value) *)
+      L (map (fun lo => Svals (map snd (lo_st lo))) (lines w)) ].
 
 Fixpoint run_wops (fd : bool) (w : world) (ops : list sx) : list sx :=
   match ops with
